@@ -1,11 +1,14 @@
 import MjProof.Lemmas.OrientRot
+import MjProof.Lemmas.Attach
 /-
 C36  Equivalent model descriptions compile to equivalent physics — the orientation spellings.
 
 Theorems over ℝ about the executable model `Model/Orient.lean` of `ResolveOrientation` (user_objects.cc) and of the
 frame accumulators of user_util.cc (whose straight-line kernels are the definitions generated from the source),
 instantiated with `π = Real.pi`: every orientation spelling yields the quaternion of the rotation it denotes.
-Defaults, attach, fusestatic, discardvisual and `mj_setConst` are NOT modelled (oracle only).
+The pose semantics of `mjs_attach` (every attachment point x attached element, `Model/Attach.lean`) is modelled and
+proved equal to the written-out description.  Defaults, fusestatic, discardvisual and `mj_setConst` are NOT modelled
+(oracle only).
 -/
 set_option linter.unusedSimpArgs false
 set_option linter.unusedVariables false
@@ -342,6 +345,115 @@ example : Normalisable (⟨0, 3, 0⟩ : V3 ℝ) := by
   refine ⟨?_, ?_⟩
   · rw [mjEPS_eq]; norm_num
   · rw [mjEPS_eq]; norm_num
+
+/-! ### `mjs_attach` versus the written-out description -/
+section attach
+open MjProof.Attach
+
+/-- **Attached body / frame = inline body / frame**, for every number class (in particular bit for bit on doubles):
+    attaching a body or a frame of a child spec to a frame, a body or a site of the host compiles the observed body to
+    exactly the pose of the written-out description — the attachment point spelled as a frame with the same `pos`,
+    `quat` and `alt` (and the same compiler settings), the attached frames and the body written inside it, every element
+    keeping the `degree` / `eulerseq` of the spec it was written in.  For a site this needs that the site's spelling is
+    resolved with the settings of the spec the site was WRITTEN in (`ownSettings`) and is resolvable. -/
+theorem attach_eq_inline {α : Type} [MjNum α] (pi : α) (host : Comp) (p : Point α) (c : Child α)
+    (hown : p.ownSettings) (hres : p.resolvable pi)
+    (hc : ∀ cc inner b, c ≠ .model cc inner b) (hbb : ∀ b, ¬ (p = .body ∧ c = .body b)) :
+    attachPose pi host p c = inlinePose pi p c := by
+  cases p with
+  | body =>
+    cases c with
+    | body b => exact absurd ⟨rfl, rfl⟩ (hbb b)
+    | frame g inner b => simp only [attachPose, attachChain, childChain, inlinePose, inlineChain, List.nil_append]
+    | model cc inner b => exact absurd rfl (hc cc inner b)
+  | frame outer f =>
+    cases c with
+    | body b => simp only [attachPose, attachChain, childChain, inlinePose, inlineChain]
+    | frame g inner b =>
+      simp only [attachPose, attachChain, childChain, inlinePose, inlineChain, List.append_assoc, List.cons_append, List.nil_append]
+    | model cc inner b => exact absurd rfl (hc cc inner b)
+  | site outer s owner =>
+    have ho : owner = s.comp := hown
+    subst ho
+    obtain ⟨q, hq⟩ := hres
+    cases c with
+    | body b =>
+      simp only [attachPose, attachChain, childChain, hq, inlinePose, inlineChain]
+      exact placeBody_siteFrame pi host outer [] s b q hq
+    | frame g inner b =>
+      simp only [attachPose, attachChain, childChain, hq, inlinePose, inlineChain, List.append_assoc, List.cons_append, List.nil_append]
+      exact placeBody_siteFrame pi host outer (g :: inner) s b q hq
+    | model cc inner b => exact absurd rfl (hc cc inner b)
+
+/-- a site whose spelling cannot be resolved: the attachment compiles to the same error as the site itself, and the
+    written-out description does not compile either -/
+theorem attach_site_unresolvable {α : Type} [MjNum α] (pi : α) (host : Comp) (outer : List (Placed α)) (s : Placed α)
+    (c : Child α) (e : String) (h : resolveOrientation pi s.quat s.comp.degree s.comp.seq s.alt = .error e) :
+    attachPose pi host (.site outer s s.comp) c = .error e ∧ ∃ e', inlinePose pi (.site outer s s.comp) c = .error e' := by
+  refine ⟨by simp only [attachPose, attachChain, h], ?_⟩
+  cases c with
+  | body b => exact placeBody_unresolvable pi outer [] s b e h
+  | frame g inner b =>
+    simp only [inlinePose, inlineChain, List.append_assoc, List.cons_append, List.nil_append]
+    exact placeBody_unresolvable pi outer (g :: inner) s b e h
+  | model cc inner b =>
+    simp only [inlinePose, inlineChain, List.append_assoc, List.cons_append, List.nil_append]
+    exact placeBody_unresolvable pi outer inner s b e h
+
+/-- **Attached model = inline bodies** over ℝ: the identity frame `mjs_attach` wraps around the world of an attached
+    spec is neutral, so the observed body compiles to the pose of the description in which the children of the child's
+    world are written directly at the attachment point — provided every spelling on the way denotes a unit quaternion
+    (which the spelling theorems above establish for each kind of spelling). -/
+theorem attach_model_eq_inline (pi : ℝ) (host cc : Comp) (p : Point ℝ) (inner : List (Placed ℝ)) (b : Placed ℝ)
+    (hown : p.ownSettings) (hres : p.resolvable pi)
+    (hp : ∀ f ∈ p.frames, UnitFrame pi f) (hin : ∀ f ∈ inner, UnitFrame pi f) (hb : UnitBody pi b) :
+    attachPose pi host p (.model cc inner b) = inlinePose pi p (.model cc inner b) := by
+  cases p with
+  | body =>
+    simp only [attachPose, attachChain, childChain, inlinePose, inlineChain, List.nil_append]
+    exact placeBody_worldFrame pi cc [] inner b (fun f hf => by cases hf) hin hb
+  | frame outer f =>
+    simp only [attachPose, attachChain, childChain, inlinePose, inlineChain]
+    have := placeBody_worldFrame pi cc (outer ++ [f]) inner b hp hin hb
+    simpa only [List.append_assoc, List.cons_append, List.nil_append] using this
+  | site outer s owner =>
+    have ho : owner = s.comp := hown
+    subst ho
+    obtain ⟨q, hq⟩ := hres
+    simp only [attachPose, attachChain, childChain, hq, inlinePose, inlineChain]
+    rw [placeBody_siteFrame pi host outer (worldFrame cc :: inner) s b q hq]
+    have := placeBody_worldFrame pi cc (outer ++ [s]) inner b hp hin hb
+    simpa only [List.append_assoc, List.cons_append, List.nil_append] using this
+
+/-- **A body attached to a site is mounted with the site's rotation**: when the site's spelling denotes the unit
+    quaternion `qs` and the body's the unit quaternion `qb`, the attached body is compiled at
+    `pos_site + R(qs) · pos_body` with orientation `qs ⊗ qb` (not with the identity in place of `qs`). -/
+theorem attach_site_pose (pi : ℝ) (host : Comp) (s b : Placed ℝ) (qs qb : Q ℝ)
+    (hs : resolveOrientation pi s.quat s.comp.degree s.comp.seq s.alt = .ok qs) (hqs : nsq qs = 1)
+    (hb : resolveOrientation pi (normvec4 b.quat).1 b.comp.degree b.comp.seq b.alt = .ok qb) (hqb : nsq qb = 1) :
+    attachPose pi host (.site [] s s.comp) (.body b) =
+      .ok (⟨s.pos.x + (mulvecmat b.pos (matF qs)).x, s.pos.y + (mulvecmat b.pos (matF qs)).y,
+            s.pos.z + (mulvecmat b.pos (matF qs)).z⟩, hamilton qs qb) := by
+  have hq : ∀ (d : Bool) (sq : Nat × Nat × Nat), resolveOrientation pi qs d sq (.quat : OrientSpec ℝ) = .ok qs := fun _ _ => rfl
+  have h3 := frameaccumChild_pose s.pos b.pos qs qb hqs hqb
+  simp only [attachPose, attachChain, childChain, hs, List.nil_append, placeBody, compileChain, compileFrame, siteFrame, hq,
+    normvec4_unit qs hqs, compileBody, hb]
+  exact congrArg Except.ok (Prod.ext h3.2.2 h3.1)
+
+-- instances of the hypotheses: a site of the host spec spelled as a quaternion is resolvable with its own settings
+example (outer : List (Placed ℝ)) (s : Placed ℝ) (h : s.alt = .quat) :
+    (Point.site outer s s.comp).ownSettings ∧ (Point.site outer s s.comp).resolvable Real.pi :=
+  ⟨rfl, ⟨s.quat, by simp only [h]; rfl⟩⟩
+
+-- a frame spelled as the unit quaternion (3/5, 0, 4/5, 0) is a `UnitFrame`
+example (c : Comp) (p : V3 ℝ) : UnitFrame Real.pi ⟨c, p, ⟨3/5, 0, 4/5, 0⟩, .quat⟩ := by
+  intro q hq
+  have : q = ⟨3/5, 0, 4/5, 0⟩ := by
+    have h' : (Except.ok (⟨3/5, 0, 4/5, 0⟩ : Q ℝ) : Except String (Q ℝ)) = .ok q := hq
+    injection h' with h''; exact h''.symm
+  rw [this]; simp only [nsq]; norm_num
+
+end attach
 
 -- `euler_denotes_rotation_product`: the mixed sequence "zYx"
 example : ELetter.ofCode 122 = some ⟨.z, true⟩ ∧ ELetter.ofCode 89 = some ⟨.y, false⟩ ∧ ELetter.ofCode 120 = some ⟨.x, true⟩ := by
